@@ -24,6 +24,7 @@ from harness.common.num import q, fbits, unfbits, unq
 PID = "C10"
 LEVEL = "translation_validation"
 REQUIRED_THEOREMS = [
+    "class_rate_eq_expression_semantics", "rate_uses_own_bc", "grouped_text_vs_split_class_gap",
     "diffusion_rate_eq_expression", "allenCahn_rate_eq_expression", "cahnHilliard_rate_eq_expression",
     "kpz_rate_eq_expression", "wave_rate_eq_expression", "kleinGordon_rate_eq_expression",
     "ks_rate_eq_expression_linear", "swiftHohenberg_rate_eq_expression_linear",
